@@ -8,6 +8,8 @@ import (
 	"path/filepath"
 	"regexp"
 	"runtime"
+	"runtime/debug"
+	"runtime/pprof"
 	"sort"
 	"strings"
 	"time"
@@ -240,9 +242,15 @@ func cmdRun(args []string) int {
 	verbose := fs.Bool("v", false, "verbose")
 	solver := fs.String("solver", "z3", "z3|z3-new|cvc5")
 	maxPaths := fs.Int("max-paths", 0, "stop a harness after this many paths (0 = no limit)")
+	cpuprof := fs.String("cpuprofile", "", "write a CPU profile")
 	fs.Parse(args)
 	if *prop == "" {
 		fatal("--prop required")
+	}
+	if *cpuprof != "" {
+		pf, _ := os.Create(*cpuprof)
+		pprof.StartCPUProfile(pf)
+		defer pprof.StopCPUProfile()
 	}
 	if t := os.Getenv("VERIF_TIER"); t == "quick" || t == "thorough" {
 		*tier = t
@@ -250,6 +258,7 @@ func cmdRun(args []string) int {
 	if *workers == 0 {
 		*workers = runtime.NumCPU()
 	}
+	debug.SetGCPercent(400)
 	start := time.Now()
 	refs := discover(*prop)
 	if *only != "" {
@@ -266,7 +275,7 @@ func cmdRun(args []string) int {
 		fatal("no harness for property " + *prop)
 	}
 	known := loadKnownFindings()
-	cfg := Config{maxSteps: 3000000, maxLoop: 300, maxDepth: 200, maxIteChain: 96, maxConcretize: 600, timeoutMs: 20000, solverKind: *solver, maxAllocCells: 1 << 16, bigAlloc: 64}
+	cfg := Config{maxSteps: 3000000, maxLoop: 300, maxDepth: 200, maxIteChain: 96, maxConcretize: 600, timeoutMs: 20000, solverKind: *solver, maxAllocCells: 1 << 19, bigAlloc: 64}
 	if *tier == "thorough" {
 		cfg.timeoutMs = 120000
 		cfg.maxLoop = 1200
